@@ -4,9 +4,10 @@ The mutant is applied in its own scratch worktree (/tmp/wt_<PROP>, a full cargo 
 import json, os, re, shutil, subprocess, sys
 prop, n = sys.argv[1], sys.argv[2]
 checks = sys.argv[3:] or [prop]
-wt = f"/tmp/wt_{prop}"
+# round 2: SEED_WT_PREFIX=/tmp/wt2_ SEED_ID_OFFSET=3 stores out/<n> as <PROP>-<n+3>
+wt = os.environ.get("SEED_WT_PREFIX", "/tmp/wt_") + prop
 src = f"{wt}/out/{n}"
-name = f"{prop}-{n}"
+name = f"{prop}-{int(n) + int(os.environ.get('SEED_ID_OFFSET', '0'))}"
 dst = f"/verif/seeded/{name}"
 os.makedirs(dst, exist_ok=True)
 shutil.copy(f"{src}/patch.diff", f"{dst}/patch.diff")
@@ -33,7 +34,7 @@ results = {}
 if ap.returncode != 0:
     results["apply_on_current_head"] = "FAILED: " + ap.stderr[:300]
 else:
-    env = dict(os.environ, VERIF_REPO=wt, VERIF_BUILD=f"/tmp/mut/build_{prop}")
+    env = dict(os.environ, VERIF_REPO=wt, VERIF_BUILD=f"/tmp/mut/build_{prop}_{n}")
     for c in checks:
         r = sh(f"bin/check {c}", cwd="/verif", env=env)
         lines = [l[:400] for l in (r.stdout + r.stderr).split("\n") if l.strip()]
